@@ -34,13 +34,14 @@ Record sconf := mkSconf { sc_addr : addr; sc_udp : Z; sc_tcp : Z; sc_iface : byt
 Record apat := mkApat { ap_addr : addr; ap_mask : Z }.
 
 Record sysconfig := mkSys {
-  s_sconfig : list sconf;
+  s_sconfig : option (list sconf);   (* None <-> NULL; the list exists (possibly empty) once
+                                        ares_sconfig_append got past the blacklist test *)
   s_sortlist : list apat;           (* [] <-> NULL *)
   s_domains : list bytes;           (* [] <-> NULL *)
   s_lookups : option bytes;
   s_ndots : Z; s_tries : Z; s_rotate : bool; s_timeout_ms : Z; s_usevc : bool }.
 
-Definition sys_init : sysconfig := mkSys [] [] [] None 1 0 false 0 false.
+Definition sys_init : sysconfig := mkSys None [] [] None 1 0 false 0 false.
 
 Definition set_sconfig (c : sysconfig) v := mkSys v (s_sortlist c) (s_domains c) (s_lookups c) (s_ndots c) (s_tries c) (s_rotate c) (s_timeout_ms c) (s_usevc c).
 Definition set_sortlist (c : sysconfig) v := mkSys (s_sconfig c) v (s_domains c) (s_lookups c) (s_ndots c) (s_tries c) (s_rotate c) (s_timeout_ms c) (s_usevc c).
@@ -238,13 +239,13 @@ Definition process_option (cfg : sysconfig) (option : bytes) : outcome sysconfig
   | [] => Err ARES_EBADSTR
   | key :: vr =>
     let valint := match vr with v :: _ => strtoul10_u32 v | [] => 0%Z end in
-    if kw key o_ndots then Ok (set_ndots cfg valint)
-    else if kw key o_retrans || kw key o_timeout then
+    if kw key on_ndots then Ok (set_ndots cfg valint)
+    else if kw key on_retrans || kw key on_timeout then
       if (valint =? 0)%Z then Err ARES_EFORMERR else Ok (set_timeout_ms cfg (u32 (valint * 1000)))
-    else if kw key o_retry || kw key o_attempts then
+    else if kw key on_retry || kw key on_attempts then
       if (valint =? 0)%Z then Err ARES_EFORMERR else Ok (set_tries cfg valint)
-    else if kw key o_rotate then Ok (set_rotate cfg true)
-    else if kw key o_usevc1 || kw key o_usevc2 then Ok (set_usevc cfg true)
+    else if kw key on_rotate then Ok (set_rotate cfg true)
+    else if kw key on_usevc1 || kw key on_usevc2 then Ok (set_usevc cfg true)
     else Ok cfg
   end.
 
@@ -329,8 +330,8 @@ Definition parse_nameserver_uri (entry : bytes) : uri_res :=
           else
             (* ares_uri_parse_hostport *)
             let hp :=
-              match auth with
-              | 91 :: r =>
+              if match auth with c :: _ => c =? ch_lbr | [] => false end then
+                let r := tl auth in
                 match index_of ch_rbr r with
                 | None => None
                 | Some k => match fetch_string 256 (firstn k r) with
@@ -338,9 +339,9 @@ Definition parse_nameserver_uri (entry : bytes) : uri_res :=
                             | _ => None
                             end
                 end
-              | _ => let (h, r) := span (fun c => negb (c =? ch_colon)) auth in
-                     match fetch_string 256 h with Ok h' => Some (h', r) | _ => None end
-              end in
+              else
+                let sp := span (fun c => negb (c =? ch_colon)) auth in
+                match fetch_string 256 (fst sp) with Ok h' => Some (h', snd sp) | _ => None end in
             match hp with
             | None => UriFail
             | Some (host, after) =>
@@ -407,48 +408,42 @@ Definition parse_nameserver_uri (entry : bytes) : uri_res :=
 (* parse_nameserver *)
 Definition parse_nameserver (entry : bytes) : outcome sconf :=
   let b := dropwhile isspace entry in
-  do ipr <- (match b with
-             | 91 :: r =>
+  do ipr <- (if match b with c :: _ => c =? ch_lbr | [] => false end then
+               let r := tl b in
                match index_of ch_rbr r with
                | None => Err ARES_EBADSTR
                | Some k => do ip <- fetch_string 46 (firstn k r); Ok (ip, skipn (S k) r)
                end
-             | _ =>
+             else
                let v4 := match index_of ch_dot b with Some o => (0 <? o)%nat && (o <? 4)%nat | None => false end in
-               let (ip, r) := if v4 then span (fun c => mem c s_digits_dot) b else span (fun c => mem c s_ipcharset) b in
-               match ip with
+               let sp := if v4 then span (fun c => mem c s_digits_dot) b else span (fun c => mem c s_ipcharset) b in
+               match fst sp with
                | [] => Err ARES_EBADSTR
-               | _ => do ip' <- fetch_string 46 ip; Ok (ip', r)
-               end
-             end);
-  let '(ipaddr, rest) := ipr in
+               | ip => do ip' <- fetch_string 46 ip; Ok (ip', snd sp)
+               end);
+  let ipaddr := fst ipr in
+  let rest := snd ipr in
   match nf_pton nf ipaddr with
   | None => Err ARES_EBADSTR
   | Some a =>
-    do pr <- (match rest with
-              | c :: r =>
-                if c =? ch_colon then
-                  let (ds, r2) := span isdigit r in
-                  match ds with
-                  | [] => Err ARES_EBADSTR
-                  | _ => do ps <- fetch_string 6 ds; do p <- atoi ps; Ok (u16 p, r2)
-                  end
-                else Ok (0%Z, rest)
-              | [] => Ok (0%Z, rest)
-              end);
-    let '(port, rest2) := pr in
-    do ir <- (match rest2 with
-              | c :: r =>
-                if c =? ch_pct then
-                  let (ifc, r3) := span (fun c => mem c s_ifacecharset) r in
-                  match ifc with
-                  | [] => Err ARES_EBADSTR
-                  | _ => do i <- fetch_string 16 ifc; Ok (i, r3)
-                  end
-                else Ok ([], rest2)
-              | [] => Ok ([], rest2)
-              end);
-    let '(iface, rest3) := ir in
+    do pr <- (if match rest with c :: _ => c =? ch_colon | [] => false end then
+                let sp := span isdigit (tl rest) in
+                match fst sp with
+                | [] => Err ARES_EBADSTR
+                | ds => do ps <- fetch_string 6 ds; do p <- atoi ps; Ok (u16 p, snd sp)
+                end
+              else Ok (0%Z, rest));
+    let port := fst pr in
+    let rest2 := snd pr in
+    do ir <- (if match rest2 with c :: _ => c =? ch_pct | [] => false end then
+                let sp := span (fun c => mem c s_ifacecharset) (tl rest2) in
+                match fst sp with
+                | [] => Err ARES_EBADSTR
+                | ifc => do i <- fetch_string 16 ifc; Ok (i, snd sp)
+                end
+              else Ok ([], rest2));
+    let iface := fst ir in
+    let rest3 := snd ir in
     match dropwhile isspace rest3 with
     | [] => Ok (mkSconf a port port iface 0)
     | _ => Err ARES_EBADSTR
@@ -483,25 +478,27 @@ Definition sconfig_linklocal (ifs : option iftab) (ll_iface : bytes) : outcome (
     let sc := match ifs with Some t => if_nametoindex t ll_iface | None => 0%Z end in
     if (sc =? 0)%Z then Ok None else Ok (Some (ll_iface, sc)).
 
-(* ares_sconfig_append *)
-Definition sconfig_append (ifs : option iftab) (l : list sconf) (a : addr) (udp tcp : Z) (ll_iface : bytes)
-  : outcome (list sconf) :=
+(* ares_sconfig_append; [l = None] is a NULL list, which is created before the link-local test *)
+Definition sconfig_append (ifs : option iftab) (l : option (list sconf)) (a : addr) (udp tcp : Z) (ll_iface : bytes)
+  : outcome (option (list sconf)) :=
   if addr_blacklisted a then Ok l
-  else if addr_is_linklocal a then
-    match ll_iface with
-    | [] => Ok l
-    | _ => do r <- sconfig_linklocal ifs ll_iface;
-           match r with
-           | Some (nm, sc) => Ok (l ++ [mkSconf a udp tcp nm sc])
-           | None => Ok l
-           end
-    end
-  else Ok (l ++ [mkSconf a udp tcp [] 0]).
+  else
+    let cur := match l with Some x => x | None => [] end in
+    if addr_is_linklocal a then
+      match ll_iface with
+      | [] => Ok (Some cur)
+      | _ => do r <- sconfig_linklocal ifs ll_iface;
+             match r with
+             | Some (nm, sc) => Ok (Some (cur ++ [mkSconf a udp tcp nm sc]))
+             | None => Ok (Some cur)
+             end
+      end
+    else Ok (Some (cur ++ [mkSconf a udp tcp [] 0])).
 
 Definition NotModelled : Z := (-2)%Z.
 
-Fixpoint append_entries (ifs : option iftab) (ignore_invalid : bool) (es : list bytes) (l : list sconf)
-  : outcome (list sconf) :=
+Fixpoint append_entries (ifs : option iftab) (ignore_invalid : bool) (es : list bytes) (l : option (list sconf))
+  : outcome (option (list sconf)) :=
   match es with
   | [] => Ok l
   | e :: r =>
@@ -521,8 +518,8 @@ Fixpoint append_entries (ifs : option iftab) (ignore_invalid : bool) (es : list 
   end.
 
 (* ares_sconfig_append_fromstr *)
-Definition sconfig_append_fromstr (ifs : option iftab) (l : list sconf) (str : bytes) (ignore_invalid : bool)
-  : outcome (list sconf) :=
+Definition sconfig_append_fromstr (ifs : option iftab) (l : option (list sconf)) (str : bytes) (ignore_invalid : bool)
+  : outcome (option (list sconf)) :=
   match str with
   | [] => Err ARES_ENOMEM
   | _ => append_entries ifs ignore_invalid (buf_split s_sep_servers false false false 0 str) l
@@ -535,51 +532,58 @@ Definition sconfig_append_fromstr (ifs : option iftab) (l : list sconf) (str : b
    earlier sortlist is freed first. *)
 Definition sortlist_fixed : bool := true.
 
+(* the keyword dispatch of ares_sysconfig_parse_resolv_line: [option] keyword, [rest1] the bytes
+   after the keyword and the blanks, [value] its trimmed text *)
+Definition resolv_dispatch (sortlist_fixed : bool) (ifs : option iftab) (cfg : sysconfig) (option rest1 value : bytes)
+  : outcome sysconfig :=
+  if kw option k_domain then
+    (match s_domains cfg with [] => config_search cfg value 1 | _ => Ok cfg end)
+  else if kw option k_lookup || kw option k_hostresorder then config_lookup cfg rest1 s_sep_ws
+  else if kw option k_search then config_search cfg value 0
+  else if kw option k_nameserver then
+    match sconfig_append_fromstr ifs (s_sconfig cfg) value true with
+    | Ok l => Ok (set_sconfig cfg l)
+    | Err s => Err s
+    | UB k => UB k
+    end
+  else if kw option k_sortlist then
+    match parse_sortlist value with
+    | Ok [] => Ok (if sortlist_fixed then cfg else set_sortlist cfg [])
+    | Ok l => Ok (set_sortlist cfg l)
+    | Err s => if (s =? ARES_ENOMEM)%Z then Err s
+               else Ok (if sortlist_fixed then cfg else set_sortlist cfg [])
+    | UB k => UB k
+    end
+  else if kw option k_options then set_options cfg value
+  else Ok cfg.
+
 (* ares_sysconfig_parse_resolv_line; Ok = ARES_SUCCESS, Err = ARES_ENOMEM (aborts the file) *)
-Definition parse_resolv_line (ifs : option iftab) (cfg : sysconfig) (line : bytes) : outcome sysconfig :=
+Definition parse_resolv_line_gen (sortlist_fixed : bool) (ifs : option iftab) (cfg : sysconfig) (line : bytes) : outcome sysconfig :=
   match line with
-  | c :: _ => if (c =? ch_hash) || (c =? ch_semi) then Ok cfg else
-    let (optb, rest) := span (fun c => negb (isspace c)) line in
-    match optb with
+  | [] => Ok cfg
+  | c :: _ =>
+    if (c =? ch_hash) || (c =? ch_semi) then Ok cfg else
+    let sp := span (fun c => negb (isspace c)) line in
+    match fst sp with
     | [] => Ok cfg
-    | _ =>
+    | optb =>
       match fetch_string 32 optb with
       | Ok option =>
-        let rest1 := dropwhile isspace rest in
+        let rest1 := dropwhile isspace (snd sp) in
         match fetch_string 512 rest1 with
         | Ok value0 =>
-          let value := str_trim value0 in
-          match value with
+          match str_trim value0 with
           | [] => Ok cfg
-          | _ =>
-            if kw option k_domain then
-              (match s_domains cfg with [] => config_search cfg value 1 | _ => Ok cfg end)
-            else if kw option k_lookup || kw option k_hostresorder then config_lookup cfg rest1 s_sep_ws
-            else if kw option k_search then config_search cfg value 0
-            else if kw option k_nameserver then
-              match sconfig_append_fromstr ifs (s_sconfig cfg) value true with
-              | Ok l => Ok (set_sconfig cfg l)
-              | Err s => Err s
-              | UB k => UB k
-              end
-            else if kw option k_sortlist then
-              match parse_sortlist value with
-              | Ok [] => Ok (if sortlist_fixed then cfg else set_sortlist cfg [])
-              | Ok l => Ok (set_sortlist cfg l)
-              | Err s => if (s =? ARES_ENOMEM)%Z then Err s
-                         else Ok (if sortlist_fixed then cfg else set_sortlist cfg [])
-              | UB k => UB k
-              end
-            else if kw option k_options then set_options cfg value
-            else Ok cfg
+          | value => resolv_dispatch sortlist_fixed ifs cfg option rest1 value
           end
         | _ => Ok cfg
         end
       | _ => Ok cfg
       end
     end
-  | [] => Ok cfg
   end.
+
+Definition parse_resolv_line := parse_resolv_line_gen sortlist_fixed.
 
 (* parse_nsswitch_line / parse_svcconf_line *)
 Definition parse_db_line (delim : N) (seps : bytes) (cfg : sysconfig) (line : bytes) : outcome sysconfig :=
